@@ -173,3 +173,14 @@ theorem clearBelow_get_ge {k : Nat} {m : Mask} {i : Nat} (hi : k ≤ i) (hk : k 
   congr 1; omega
 
 end Sonic.Proofs.OnDemand
+
+namespace Sonic.Proofs.OnDemand
+
+/-- decidable equality of `Except` values (for `decide`-checked examples); not a global instance -/
+@[instance_reducible] def exceptDecEq {ε α : Type} [DecidableEq ε] [DecidableEq α] : DecidableEq (Except ε α)
+  | .ok a, .ok b => if h : a = b then isTrue (by rw [h]) else isFalse (by intro e; injection e; contradiction)
+  | .error a, .error b => if h : a = b then isTrue (by rw [h]) else isFalse (by intro e; injection e; contradiction)
+  | .ok _, .error _ => isFalse (by intro e; cases e)
+  | .error _, .ok _ => isFalse (by intro e; cases e)
+
+end Sonic.Proofs.OnDemand
